@@ -535,25 +535,31 @@ impl<R: Round> Context<R> {
                 let signif = repr.significand * Repr::<B>::BASE.pow(repr.exponent as usize);
                 self.repr_round(Repr::new(signif, 0))
             } else {
-                let num = Repr::new(repr.significand, 0);
-                let den = Repr::new(Repr::<B>::BASE.pow(-repr.exponent as usize).into(), 0);
-                if num.digits() <= self.precision + den.digits() {
-                    self.repr_div(num, den)
-                } else {
-                    // repr_div doesn't deal with a dividend this long (the quotient has more digits
-                    // than the precision): divide exactly and round once
-                    let (q, r) = num.significand.div_rem(&den.significand);
-                    let shift = digit_len::<NewB>(&q) - self.precision;
-                    let exponent = num.exponent - den.exponent + shift as isize;
-                    let (hi, lo) = split_digits::<NewB>(q, shift);
-                    let rem = lo * &den.significand + r;
-                    if rem.is_zero() {
-                        return Exact(Repr::new(hi, exponent));
-                    }
-                    let scale = shl_digits::<NewB>(&den.significand, shift);
-                    let adjust = R::round_ratio(&hi, rem, &scale);
-                    Inexact(Repr::new(hi + adjust, exponent), adjust)
+                let mut num = Repr::<NewB>::new(repr.significand, 0);
+                let den = Repr::<NewB>::new(Repr::<B>::BASE.pow(-repr.exponent as usize).into(), 0);
+
+                // repr_div is not used here: its quotient can have one digit more than the precision,
+                // and the callers (to_f32, to_f64, with_base) need a result that fits the precision.
+                // Pad a short dividend such that the quotient has at least `precision` digits
+                let min_digits = self.precision + den.digits();
+                if num.digits() < min_digits {
+                    let pad = min_digits - num.digits();
+                    shl_digits_in_place::<NewB>(&mut num.significand, pad);
+                    num.exponent -= pad as isize;
                 }
+
+                // divide exactly, keep `precision` digits of the quotient and round once
+                let (q, r) = num.significand.div_rem(&den.significand);
+                let shift = digit_len::<NewB>(&q) - self.precision;
+                let exponent = num.exponent - den.exponent + shift as isize;
+                let (hi, lo) = split_digits::<NewB>(q, shift);
+                let rem = lo * &den.significand + r;
+                if rem.is_zero() {
+                    return Exact(Repr::new(hi, exponent));
+                }
+                let scale = shl_digits::<NewB>(&den.significand, shift);
+                let adjust = R::round_ratio(&hi, rem, &scale);
+                Inexact(Repr::new(hi + adjust, exponent), adjust)
             }
         } else {
             // if the exponent is large, then we first estimate the result exponent as floor(exponent * log(B) / log(NewB)),
